@@ -30,6 +30,7 @@ where
     /// Create a new indicator with a view, moving average and window length
     #[inline]
     pub fn new(view: V, ma: M, window_len: usize) -> Self {
+        assert!(window_len >= 2, "window_len must be at least 2");
         Self {
             view,
             moving_average: ma,
